@@ -1006,3 +1006,20 @@ def prove_lemmas(theories, timeout=10):
         if o.status != 'unsat': st = o.status or 'unknown'
         res[n] = (st, (log + ' ' + o.name + ':' + o.output).strip())
     return [(n, st, log) for n, (st, log) in res.items()]
+
+
+def lemma_canaries(theories, timeout=5):
+    """vacuity guard for the proof scripts (thorough tier): the hypotheses of every proof step together with all axioms and lemmas of the
+    selected theories must not prove False.  -> names of the steps whose hypotheses are inconsistent"""
+    from .smt import discharge
+    from .verify import relevant_generated
+    avail = []
+    for th in theories: avail += [f for (_tag, _n, f) in T.AXIOMS.get(th, [])]
+    obls = []
+    for (th, n), pf in PROOFS.items():
+        if th not in theories: continue
+        for (part, hyps, _goal) in pf():
+            o = Obligation('canary', '%s/%s' % (n, part), 'lemma', list(avail) + hyps, z3.BoolVal(False))
+            o.hyps = relevant_generated(o, []) + o.hyps; obls.append(o)
+    discharge(obls, [], timeout=timeout, backends=('z3e', 'z3'))
+    return len(obls), [o.name for o in obls if o.status == 'unsat']
